@@ -8,7 +8,7 @@ open Yorkie Yorkie.Crdt
 
 theorem inv3_undo_add {H : Home} {N : Int} {ρ : Ticket → Ticket} {g : Hist} {p prev ts0 : Ticket} {val : UVal}
     {ru rr : List UOp} {X Y : Doc} {more future : List Doc} {l : List Ticket}
-    (i : Inv3 H N ρ g (.add p prev val ts0 :: ru) rr (X :: more) Y future) (ga : GoodAdd H g.tw Y p prev val l) :
+    (i : Inv3 H N ρ g (.add p prev val ts0 :: ru) rr (X :: more) Y future) (ga : GoodAdd H noTw Y p prev val l) :
     ∃ H' ρ' rr', Inv3 H' N ρ' (undo g) ru rr' more X (Y :: future) ∧
       (rr'.length = rr.length + 1 ∨ maxDepth ≤ rr'.length) := by
   obtain ⟨en, chU'⟩ := i.chU
@@ -28,22 +28,22 @@ theorem inv3_undo_add {H : Home} {N : Int} {ρ : Ticket → Ticket} {g : Hist} {
     rcases ga.hprev with h | h
     · left; rw [h]; exact i.rhead
     · right; exact List.mem_map_of_mem h
-  obtain ⟨d', he, hwf, hbd, hpl, hsk, hnode⟩ := step_add (tw := g.tw) (src := .undoRedo) (ts := g.next)
+  obtain ⟨d', he, hwf, hbd, hpl, hsk, hnode⟩ := step_add (tw := noTw) (src := .undoRedo) (ts := g.next)
     (val := { val with id := ρ val.id }) wf' i.bd i.pl ht'L hts hAp hprev' ga.hleaf ga.hrem hpar' rfl
   obtain ⟨urest, hurest⟩ := i.hundo
   obtain ⟨rrest, hrrest⟩ := i.hredo
   obtain ⟨hd1, htw1, hl1, hu1, hr1⟩ := undo_of_stack_add (cv := { val with id := ρ val.id })
-    (by rw [hurest, stackOf_cons, List.cons_append]; rfl) ga.hsub he
+    (by rw [hurest, stackOf_cons, List.cons_append]; simp only [fullRen, hρp]; rfl) he
   simp only [] at hu1 hr1
   have huq := i.uniqU
   rw [addIds_cons_add, List.nodup_cons] at huq
   have hunr : val.id ∉ addIds rr := fun hm => i.uniqD val.id (by rw [addIds_cons_add]; simp) val.id hm rfl
   have hrecU : ∀ r ∈ ru, reconcileOp (ρ val.id) g.next (fullRen ρ r) =
       fullRen (fun t => if t = val.id then g.next else ρ t) r := fun r hr =>
-    reconcileOp_fullRen i.sim.inj huN (chU'.idb r hr).to2 (fun h => huq.1 (mem_addIds.2 ⟨r, hr, h⟩))
+    reconcileOp_fullRen i.sim.inj huN (chU'.idb r hr).to2 (chU'.pb r hr) (fun h => huq.1 (mem_addIds.2 ⟨r, hr, h⟩))
   have hrecR : ∀ r ∈ rr, reconcileOp (ρ val.id) g.next (fullRen ρ r) =
       fullRen (fun t => if t = val.id then g.next else ρ t) r := fun r hr =>
-    reconcileOp_fullRen i.sim.inj huN (i.chR.idb r hr).to2 (fun h => hunr (mem_addIds.2 ⟨r, hr, h⟩))
+    reconcileOp_fullRen i.sim.inj huN (i.chR.idb r hr).to2 (i.chR.pb r hr) (fun h => hunr (mem_addIds.2 ⟨r, hr, h⟩))
   rw [reconcileStack_stackOf urest hrecU] at hu1
   rw [hrrest, reconcileStack_stackOf rrest hrecR] at hr1
   obtain ⟨rr2, rrest2, hpt, hcase⟩ := pushTail_stackOf (fun t => if t = val.id then g.next else ρ t) rr
@@ -59,7 +59,7 @@ theorem inv3_undo_add {H : Home} {N : Int} {ρ : Ticket → Ticket} {g : Hist} {
   have wY' : WF (H.update g.next p "") Y := WF_update i.wfc i.bdc ht'N p ""
   have wX' : WF (H.update g.next p "") X := WF_update en.wfX en.bdX ht'N p ""
   have hgood := inv3_good (N := N) (r := .add p prev val g.next) wY' wX' i.bdc i.plc en.skel
-    ((show GoodOp3 H g.tw Y (.add p prev val g.next) from ⟨l, ga⟩).update (N := N) ⟨en.idb.1, huN⟩ ht'N p "")
+    ((show GoodOp3 H noTw Y (.add p prev val g.next) from ⟨l, ga⟩).update (N := N) ⟨en.idb.1, huN⟩ ht'N p "")
     ⟨en.idb.1, huN⟩ hN0 hXeq
   have hpu : p ≠ val.id := by intro h; have := ga.hp; rw [h, ga.hdead] at this; cases this
   have hYp : absNode Y p ≠ none := by rw [ga.hp]; simp
@@ -97,9 +97,9 @@ theorem inv3_undo_add {H : Home} {N : Int} {ρ : Ticket → Ticket} {g : Hist} {
     .remove p val.id g.next :: rr2, ?_, length_after_push hcase⟩
   refine
     { wf := hd1 ▸ hwf, bd := ?_, pl := ?_, hN := by rw [hl1]; omega, hN0 := hN0,
-      twb := by rw [htw1]; exact i.twb, wfc := wX', bdc := en.bdX, plc := en.plX,
+      wfc := wX', bdc := en.bdX, plc := en.plX,
       eskel := ?_, sim := hd1 ▸ hsimX, rfix := ?_, rhead := ?_, rng := ?_, rnew := ?_, rarr := ?_,
-      hundo := ⟨_, hu1⟩, hredo := ⟨rrest2, ?_⟩, chU := htw1 ▸ chU'.update ht'N p "", chR := ?_,
+      hundo := ⟨_, hu1⟩, hredo := ⟨rrest2, ?_⟩, chU := chU'.update ht'N p "", chR := ?_,
       uniqU := huq.2, uniqR := ?_, uniqD := ?_, dead := ?_ }
   · rw [hd1, hl1]; exact hbd
   · rw [hd1, hl1]; exact hpl
@@ -127,9 +127,8 @@ theorem inv3_undo_add {H : Home} {N : Int} {ρ : Ticket → Ticket} {g : Hist} {
       simp only [Home.update, htn, if_false]; exact ga.hpar
     · simp only [h, if_false] at hne
       exact ((i.rarr t ht hne).step hback).update htn p ""
-  · rw [hr1, stackOf_cons]; simp [fullRen]
-  · rw [htw1]
-    refine ⟨⟨wY', i.bdc, i.plc, hgood.1, hgood.2.1, fun t => (en.skel t).symm, hgood.2.2⟩, ?_⟩
+  · rw [hr1, stackOf_cons]; simp [fullRen, hpu, hρp]
+  · refine ⟨⟨wY', i.bdc, i.plc, hgood.1, hgood.2.1, fun t => (en.skel t).symm, hgood.2.2, hpN⟩, ?_⟩
     rcases hcase with rfl | ⟨rfl, _⟩
     · exact i.chR.update ht'N p ""
     · exact (i.chR.update ht'N p "").dropLast
